@@ -80,6 +80,14 @@ DiscOf(S, t, v) ==    \* the branch of a discriminated union a value names
 HasDisc(S, t, v) ==
   \E r \in Range(t.refs) : \E f \in Range(S[r].fields) : f.n = t.disc /\ f.t.k = "const" /\ Member(v, t.disc) = f.t.v
 
+\* type keys of a schema: named structs and the inline structs directly inside them
+KT(k, t) == [key |-> k, t |-> t]
+KeyTypes(schema) ==
+  LET ds == {d \in Range(schema.defs) : d.t.k = "struct"} IN
+  {KT(d.name, d.t) : d \in ds}
+  \cup UNION {{KT(d.name \o "." \o f.n, f.t) : f \in {g \in Range(d.t.fields) : g.t.k = "struct"}} : d \in ds}
+TypeOfKey(schema, key) == (CHOOSE x \in KeyTypes(schema) : x.key = key).t
+
 (* --------------------- the value a (nested) builder produces ------------------- *)
 \* a struct-typed argument is produced by a nested builder: it starts from that type's own default
 \* object and receives one option call per member of the argument (constants have no option)
@@ -215,16 +223,39 @@ RebuildOK(t, D, key, v, r) == RebuildDiff(t, D, key, v, r) = {}
 \* b = the builder term [ctor, opts]; counts = sequence of [n |-> option name, c |-> times it is called].
 RECURSIVE AtPath(_, _)
 AtPath(o, path) == IF path = <<>> THEN o ELSE AtPath(Member(o, Head(path)), Tail(path))
-OptNeeded(D, key, o, v) == \E i \in DOMAIN o.asgs : ~SameObj(AtPath(v, o.asgs[i].path), AtPath(D[key], o.asgs[i].path))
-Want(o, v) ==
-  LET a == o.asgs[1] x == AtPath(v, a.path) IN
-  CASE a.m = "direct" -> 1
-    [] a.m = "append" -> IF x.j = "arr" THEN Len(x.xs) ELSE 0
-    [] a.m = "index"  -> IF x.j = "obj" THEN Len(x.ps) ELSE 0
+\* what the object holds at a path when the option is NOT called: the builder's default, where an intermediate object
+\* that v has but the default lacks counts with ITS OWN default (another option on the same prefix creates it that way)
+RECURSIVE BaseAt(_, _, _, _, _, _, _)
+BaseAt(S, D, key, t, d, v, path) ==
+  LET s  == AsStruct(S, key, t)
+      n  == Head(path)
+      ck == s.key \o "." \o n
+      dn == Member(d, n)
+      vn == Member(v, n)
+  IN IF Len(path) = 1 THEN dn
+     ELSE LET cs    == AsStruct(S, ck, FieldOf(s.t, n).t)
+              child == IF dn.j = "obj" THEN dn ELSE IF vn.j = "obj" THEN D[cs.key] ELSE NoJ
+          IN IF child.j # "obj" THEN NoJ ELSE BaseAt(S, D, ck, FieldOf(s.t, n).t, child, vn, Tail(path))
+OptNeeded(S, t, D, key, o, v) ==
+  \E i \in DOMAIN o.asgs : ~SameObj(AtPath(v, o.asgs[i].path), BaseAt(S, D, key, t, D[key], v, o.asgs[i].path))
+\* (S, key, t) = the struct the builder is for. An appending option whose argument is ONE branch of the list's union
+\* (disjunction_as_options) is needed once per element of that branch.
+Want(S, key, t, o, v) ==
+  LET a  == o.asgs[1]
+      x  == AtPath(v, a.path)
+      et == Unwrap(S, ElemType(S, TypeAt(S, key, t, a.path).t))
+      at == o.args[a.src]
+  IN CASE a.m = "direct" -> 1
+       [] a.m = "append" ->
+            IF x.j # "arr" THEN 0
+            ELSE IF et.k = "dunion" /\ at.k = "ref" /\ at.name \in Range(et.refs)
+                 THEN Cardinality({i \in DOMAIN x.xs : HasDisc(S, et, x.xs[i]) /\ DiscOf(S, et, x.xs[i]) = at.name})
+                 ELSE Len(x.xs)
+       [] a.m = "index"  -> IF x.j = "obj" THEN Len(x.ps) ELSE 0
 IsPromoted(b, o) == \E j \in DOMAIN b.ctor.asgs : b.ctor.asgs[j].path = o.asgs[1].path
-NeededOpts(D, key, b, v) == {i \in DOMAIN b.opts : ~IsPromoted(b, b.opts[i]) /\ OptNeeded(D, key, b.opts[i], v)}
+NeededOpts(S, t, D, key, b, v) == {i \in DOMAIN b.opts : ~IsPromoted(b, b.opts[i]) /\ OptNeeded(S, t, D, key, b.opts[i], v)}
 CountOf(counts, n) == IF \E i \in DOMAIN counts : counts[i].n = n THEN counts[CHOOSE i \in DOMAIN counts : counts[i].n = n].c ELSE 0
-NotOnce(D, key, b, v, counts) ==
-  {b.opts[i].name : i \in {j \in NeededOpts(D, key, b, v) : CountOf(counts, b.opts[j].name) # Want(b.opts[j], v)}}
+NotOnce(S, t, D, key, b, v, counts) ==
+  {b.opts[i].name : i \in {j \in NeededOpts(S, t, D, key, b, v) : CountOf(counts, b.opts[j].name) # Want(S, key, t, b.opts[j], v)}}
   \cup (IF CountOf(counts, "#ctor") # Len(b.ctor.args) THEN {"#ctor"} ELSE {})
 ===============================================================================
